@@ -1,6 +1,6 @@
 import ast, os, sys, collections
 sys.setrecursionlimit(10000)
-exec(open('/tmp/explore/kern.py').read().split("print(len(esc)")[0])  # reuse: mods, topfuncs, esc
+exec(open('/verif/notes/exploration/kern.py').read().split("print(len(esc)")[0])  # reuse: mods, topfuncs, esc
 ALIAS_METHODS={'view','reshape','ravel','squeeze','transpose','swapaxes','astype_nocopy','__getitem__','real','imag','T','flat','base','diagonal'}
 ALIAS_FUNCS={'asarray','asanyarray','ascontiguousarray','asfortranarray','squeeze','transpose','broadcast_to','atleast_1d','atleast_2d','atleast_3d','ravel','reshape','swapaxes','moveaxis','rollaxis','expand_dims','sliding_window_view','as_strided','broadcast_arrays','real','imag','diagonal','getattr'}
 INPLACE_METHODS={'sort','fill','resize','put','itemset','partition','setflags','setfield','byteswap','append','extend','update','pop','clear','insert','remove','add','discard','setdefault','popitem','reverse'}
